@@ -1093,7 +1093,7 @@ func gen(tier string, seed int64) []mon.Case {
 	if tier == "thorough" {
 		maxN = 5
 		variants = []string{"plain", "auth", "overlap", "auth+overlap"}
-		nBig, nSeq = 200, 2500
+		nBig, nSeq = 400, 5000
 	}
 	idx := 0
 	rng := func() *rand.Rand {
@@ -1105,9 +1105,6 @@ func gen(tier string, seed int64) []mon.Case {
 			for _, v := range variants {
 				if n == 1 && v != "plain" {
 					continue
-				}
-				if n == 5 && v == "auth+overlap" && ti%2 == 1 {
-					continue // wall-time budget: the combined variant for every other 5-level tree
 				}
 				s := genTreeCase(rng(), "tree", v, parent)
 				cs = append(cs, mon.MkCase(fmt.Sprintf("c04/tree-n%d-%03d-%s", n, ti, v), s))
